@@ -16,6 +16,7 @@ import Apimodel.NoCopyThm
 import Apimodel.SchemaThm
 import Apimodel.CoerceThm
 import Apimodel.UnionThm
+import Apimodel.AcceptUnionThm
 import Lean.Data.Json
 open Lean Api
 
@@ -285,7 +286,7 @@ def handle (line : String) : String :=
           let inE := ty.efrag && ty.acc && ty.nouq && d.json
           pure (Json.mkObj [("id", id), ("model", outcomeJson (deserialize o cs ty d)),
                             ("conforms", conforms o.additionalProperties o.fallBackOnDefault cs ty d),
-                            ("scope", Json.mkObj [("acc", ty.acc), ("nouq", ty.nouq), ("efrag", ty.efrag),
+                            ("scope", Json.mkObj [("acc", ty.acc), ("accu", ty.accU), ("good", d.good), ("nouq", ty.nouq), ("efrag", ty.efrag),
                                ("scope", ty.scope), ("sch", ty.sch), ("cfrag", ty.cfrag), ("nofloat", ty.noFloat),
                                ("json", d.json), ("jsonx", d.jsonX), ("wf", d.wf), ("sane", d.sane)]),
                             ("violations", if inE then errsJson (violations cs ty d) else Json.null),
